@@ -234,6 +234,54 @@ def polling_three(fl: int, ah: int, pending: bool, a: int, b: int, c: int, k: in
     return verdict(untraced(_three, fl, ah, pending, a, b, c, k))
 
 
+def _repeat_body(fl, ah, k, ws):
+    """The same body arrives three times (twice on one session, once on another session of the same server) and the
+    application's handler empties every JSON container it is handed: each MESSAGE event still carries the payload that was
+    sent (what the handler of an earlier event did to ITS data is not visible in a later one)."""
+    import copy
+    sut = mk(fl, async_handlers=ah)
+    try:
+        snap = []
+
+        def consume(sid, data):
+            snap.append(copy.deepcopy(data))
+            if isinstance(data, dict):
+                data.clear()
+            elif isinstance(data, list):
+                del data[:]
+        sut.on_message = consume
+        peers = []
+        for _ in range(2):
+            r = sut.open('websocket' if ws else 'polling')
+            sut.settle()
+            peers.append(r.peer)
+        sids = sut.sids()
+        wire, want = _wire(4, k)
+        for target in (0, 0, 1):
+            if ws:
+                peers[target].send(wire)
+            else:
+                sut.post(sids[target], wire + '\x1e' + wire)
+            sut.settle()
+        sut.run(until=sut.k.now + 1)
+        n = 3 if ws else 6
+        if len(snap) != n or any(not _same(x, want) for x in snap):
+            return fail(PROP, 'MESSAGE-EVENTS', 'payload %r sent %d times, handlers were given %r' % (wire, n, snap), flavour=sut.flavour,
+                        handlers='async' if ah else 'sync', transport='websocket' if ws else 'polling')
+        return ''
+    finally:
+        sut.close()
+
+
+@cond(quick=dict(timeout=120), thorough=dict(timeout=300))
+def repeated_bodies(fl: int, ah: bool, k: int, ws: bool) -> str:
+    """
+    pre: 0 <= fl <= 1 and 0 <= k <= len(PAY)
+    post: _ == ''
+    """
+    return verdict(untraced(_repeat_body, fl, ah, k, ws))
+
+
 def _dispatch_ws(fl, ah, upgraded, frames_spec):
     """Frames on an established WebSocket session (opened directly or reached by upgrade)."""
     sut = mk(fl, async_handlers=ah)
@@ -322,19 +370,29 @@ def websocket_frames(fl: int, ah: int, upgraded: bool, n: int, t0: int, k0: int,
     return verdict(_dispatch_ws(fl, bool(ah), upgraded, [(t0, k0), (_T3[b], 0)][:n]))
 
 
-def _dispatch_mid_upgrade(fl, ah, spec):
-    """A POST that reaches a session in the middle of the upgrade handshake (probe answered, UPGRADE not yet sent)."""
+def _dispatch_mid_upgrade(fl, ah, spec, stage=0):
+    """A POST that reaches a session in the middle of the upgrade handshake (stage 0: probe answered, UPGRADE not yet sent),
+    just after the upgrade completed (stage 1: a POST that was in flight while the UPGRADE frame travelled) or a session opened
+    directly on WebSocket (stage 2). The server answers such a POST 200, so its packets must be acted on."""
     sut = mk(fl, async_handlers=ah)
     try:
-        sut.open('polling')
-        sut.settle()
-        sid = sut.sids()[0]
-        u = sut.ws_upgrade(sid)
-        sut.settle()
-        u.peer.send('2probe')
-        sut.settle()
-        if u.peer.frames[:1] != ['3probe']:
-            return fail(PROP, 'SETUP', 'probe not answered')
+        if stage == 2:
+            u = sut.open('websocket')
+            sut.settle()
+            sid = sut.sids()[0]
+        else:
+            sut.open('polling')
+            sut.settle()
+            sid = sut.sids()[0]
+            u = sut.ws_upgrade(sid)
+            sut.settle()
+            u.peer.send('2probe')
+            sut.settle()
+            if u.peer.frames[:1] != ['3probe']:
+                return fail(PROP, 'SETUP', 'probe not answered')
+            if stage == 1:
+                u.peer.send('5')
+                sut.settle()
         wires = [_wire(t, k) for t, k in spec]
         pkts = [(t, w[1]) for (t, k), w in zip(spec, wires)]
         body = '\x1e'.join(w[0] for w in wires)
@@ -342,7 +400,15 @@ def _dispatch_mid_upgrade(fl, ah, spec):
         n0 = len(sut.events)
         post = sut.post(sid, body)
         sut.settle()
-        st = dict(flavour=sut.flavour, ending=ending, handlers='async' if ah else 'sync', mid_upgrade=True)
+        st = dict(flavour=sut.flavour, ending=ending, handlers='async' if ah else 'sync', mid_upgrade=True, stage=stage)
+        if stage > 0 and post.done and post.exc is None and sut.status(post) != 200:
+            return ''       # a server that REFUSES polling POSTs on a WebSocket session is not constrained here (C12 settles admission)
+        if stage > 0 and not post.done:
+            m = fail(PROP, 'POST-COMPLETES', 'POST %r on a WebSocket session never completed' % body,
+                     hung_in_close=blocked_in_close_join(post.task), **st)
+            if m:
+                return m
+            return ''
         got = [a for kind, s_, a in sut.events[n0:] if kind == 'message']
         if not _events_ok(got, prefix, allm, not ah, ending):
             return fail(PROP, 'MESSAGE-EVENTS', 'mid-upgrade POST %r -> message events %r, expected %r' % (body, got, prefix), **st)
@@ -355,8 +421,9 @@ def _dispatch_mid_upgrade(fl, ah, spec):
             return fail(PROP, 'SESSION-END', 'mid-upgrade POST %r: %d disconnect events' % (body, len(disc)), **st)
         if ending is None:
             # the upgrade can still be completed and the session then works on WebSocket
-            u.peer.send('5')
-            sut.settle()
+            if stage == 0:
+                u.peer.send('5')
+                sut.settle()
             n1 = len(sut.events)
             u.peer.send('4still')
             sut.settle()
@@ -368,18 +435,18 @@ def _dispatch_mid_upgrade(fl, ah, spec):
 
 
 @cond(quick=dict(timeout=120), thorough=dict(timeout=600))
-def mid_upgrade_post(fl: int, ah: bool, t0: int, k0: int, b: int, n: int) -> str:
+def mid_upgrade_post(fl: int, ah: bool, t0: int, k0: int, b: int, n: int, stage: int) -> str:
     """
-    pre: 0 <= fl <= 1 and 1 <= n <= 2 and 0 <= t0 <= 9 and 0 <= b < len(_T1)
+    pre: 0 <= fl <= 1 and 1 <= n <= 2 and 0 <= t0 <= 9 and 0 <= b < len(_T1) and 0 <= stage <= 2 and (stage == 0 or b <= 5)
     pre: ((t0 == 4 and 0 <= k0 <= len(PAY)) or (t0 != 4 and k0 == 0))
     post: _ == ''
     """
     spec = [(t0, k0), (_T1[b], 0)][:n]
-    return verdict(untraced(_mid, fl, ah, t0, k0, b, n))
+    return verdict(untraced(_mid, fl, ah, t0, k0, b, n, stage))
 
 
-def _mid(fl, ah, t0, k0, b, n):
-    return _dispatch_mid_upgrade(fl, ah, [(t0, k0), (_T1[b], 0)][:n])
+def _mid(fl, ah, t0, k0, b, n, stage=0):
+    return _dispatch_mid_upgrade(fl, ah, [(t0, k0), (_T1[b], 0)][:n], stage)
 
 
 def _refused(fl, kind, n, lim):
